@@ -725,3 +725,34 @@ M("C17.default_beats_own_level", ["C17"], "src/level.rs",
 M("C17.segments_single_colon", ["C17"], "core/src/path.rs",
   """                Some(inner) => SegmentsInner::Static(inner.split("::")),""",
   """                Some(inner) => SegmentsInner::Static(inner.split(":")),""", "C17.R5") if False else None
+
+# ---- C18 -------------------------------------------------------------------------------------------
+M("C18.child_consults_sampler", ["C18"], "traceparent/src/lib.rs",
+  "                active.traceparent.trace_flags & trace_flags,\n            ),",
+  "                if sampler.as_ref().map(|s| s(&SpanCtxt::new(active.traceparent.trace_id, None, Some(span_id)))).unwrap_or(true) { active.traceparent.trace_flags & trace_flags } else { TraceFlags::EMPTY },\n            ),", "C18.R1")
+M("C18.child_flags_constant_sampled", ["C18"], "traceparent/src/lib.rs",
+  "                active.traceparent.trace_flags & trace_flags,\n            ),",
+  "                TraceFlags::SAMPLED & trace_flags,\n            ),", "C18.R1:child")
+M("C18.exit_does_not_swap", ["C18"], "traceparent/src/lib.rs",
+  """    fn exit(&self, frame: &mut Self::Frame) {
+        if frame.active {
+            frame.slot = set_active_traceparent(frame.slot.take());
+        }
+""",
+  """    fn exit(&self, frame: &mut Self::Frame) {
+""", "C18.R4")
+M("C18.open_push_passes_sampler_flags", ["C18"], "traceparent/src/lib.rs",
+  """    fn open_disabled<P: Props>(&self, props: P) -> Self::Frame {
+        let (slot, props) =
+            incoming_traceparent(None::<fn(&SpanCtxt) -> bool>, props, TraceFlags::EMPTY);""",
+  """    fn open_disabled<P: Props>(&self, props: P) -> Self::Frame {
+        let (slot, props) =
+            incoming_traceparent(None::<fn(&SpanCtxt) -> bool>, props, TraceFlags::ALL);""", "C18.R2")
+M("C18.unsampled_exposes_ids", ["C18"], "traceparent/src/lib.rs",
+  """                if active.traceparent.trace_flags.is_sampled() {
+                    Some(SpanCtxt::new(""",
+  """                if active.traceparent.trace_flags.is_sampled() || true {
+                    Some(SpanCtxt::new(""", "C18.R5") if False else None
+M("C18.filter_samples_non_spans", ["C18"], "traceparent/src/lib.rs",
+  "        if emit::kind::is_span_filter().matches(&evt) {\n            if let (Some(incoming), _) =",
+  "        {\n            if let (Some(incoming), _) =", "C18.R2")
